@@ -72,7 +72,11 @@ func VerifH_C11_versions() {
 			symAssert(err == nil, "refresh-ok")
 			h[w] = nt
 			after := snap(nt)
-			if vRowsEq(before.rows, after.rows) {
+			// (after a commit that could not retire the version it superseded
+			// that version is still listed as current, and the next open
+			// merges it again under a new name: KF-C10-stale-current-root;
+			// C11 does not quantify over faults)
+			if vRowsEq(before.rows, after.rows) && bkt.faultsInjected == 0 {
 				symAssert(symDeepEq(before.names, after.names), "version-unchanged-by-refresh-that-changes-nothing")
 			}
 		case 4: // read-only open by a third party: lists every version it merged
